@@ -28,6 +28,7 @@ Init == /\ w = WInit(TRUE, FALSE) /\ d = WInit(FALSE, FALSE) /\ dev = FALSE /\ h
 
 Legal(ev) == /\ (ev.op = "close" => w.names # <<>>)
              /\ (ev.op = "open" => Len(w.names) < MaxDepth)
+             /\ (ev.op = "open" /\ w.names = <<>> => \A p \in 1..Len(w.out) : w.out[p].i # "stag")   \* ONE document element
              /\ (ev.op \in {"text", "raw"} => w.names # <<>>)          \* a well-formed document has no top-level text
 Step(ev, g) == /\ Legal(ev)
                /\ (g => ~KnownDeviation(w, ev))
